@@ -427,6 +427,9 @@ def run_property(modname, tier='quick', seed=0, rebaseline=False, only=None, can
     for c in reg.contracts.values():
         for nm, _ in c.pre_assume:
             rep.assumptions.append(f'assumed at the entry of {c.name}, NOT checked at its call sites: {nm}')
+        if c.stop_before:
+            rep.assumptions.append(f'{c.name}: only the PREFIX of the body is verified, up to (not including) the first statement starting with "{c.stop_before}"; '
+                                   f'the statements after it are dropped by the extraction')
         if c.allow_raise:
             rep.assumptions.append(f'{c.name} may raise {"/".join(c.allow_raise)} as far as the proof goes (no safety obligation for it; callers assume normal return)')
     rep.assumptions += list(getattr(module, 'ASSUMPTIONS', []))
